@@ -73,6 +73,7 @@ class StandIn:
 
     def run(self, reg, tier, seed):
         n, fails, seen_tags = 0, [], set()
+        self.stats = {}
         for case in self.cases(tier, seed):
             n += 1
             try:
@@ -93,6 +94,9 @@ class StandIn:
                 where = next((f"{f.filename.split('black_it/')[-1]}:{f.lineno}" for f in reversed(tb)
                               if "black_it/" in f.filename), "?")
                 msg = f"unexpected {type(e).__name__}: {e} (raised at {where})"
+            for k_, v_ in list(case.items()) if isinstance(case, dict) else []:
+                if isinstance(k_, str) and k_.startswith("$stat_"):
+                    self.stats[k_[6:]] = self.stats.get(k_[6:], 0) + v_
             if msg:
                 msg = str(msg)
                 tag = msg[1:msg.index("]")] if msg.startswith("[") and "]" in msg else ""
@@ -102,7 +106,10 @@ class StandIn:
                 fails.append({"case": enc(case), "message": msg[:500], "tag": tag})
                 if len([f for f in fails if not f["tag"]]) >= 3:
                     break
-        return {"cases": n, "failures": fails}
+        res = {"cases": n, "failures": fails}
+        if self.stats:
+            res["stats"] = dict(self.stats)
+        return res
 
     def replay(self, reg, failure):
         case = dec(failure["case"])
@@ -847,3 +854,4 @@ StandIn("C13/sampler-sequences", "C13",
 from runtime import scopes_e2e  # noqa: E402,F401  (registers the Calibrator-level stand-ins)
 from runtime import scopes_loss  # noqa: E402,F401
 from runtime import scopes_ckpt  # noqa: E402,F401
+from runtime import scopes_rl  # noqa: E402,F401
